@@ -26,6 +26,72 @@ impl QueueWindowUpdate {
     { unimplemented!() }
 }
 
+impl QueueWindowUpdate {
+    /// store::Queue<NextWindowUpdate>::pop: the head of the list (owned, un-flagged) or None iff the list is empty.
+    /// `ghost_len` is the abstract length of the intrusive list (ASSUMED FIFO list, Kani obligation store_queue_*).
+    #[verifier::external_body]
+    pub fn pop(&mut self, store: &mut RStore) -> (r: Option<Stream>)
+        ensures
+            match r {
+                Some(s) => !s.is_pending_window_update && old(self).ghost_len > 0 && final(self).ghost_len == old(self).ghost_len - 1
+                    && wf_stream_level(s.recv_flow, s.in_flight_recv_data as int) && final(store).held() == old(store).held() + 1,
+                None => old(self).ghost_len == 0 && *final(self) == *old(self) && final(store).held() == old(store).held(),
+            },
+    { unimplemented!() }
+}
+
+/// What the receive side hands to the codec, reduced: WINDOW_UPDATE and RST_STREAM frames (frame::WindowUpdate::new /
+/// frame::Reset::new + `.into()` in /repo — field-for-field constructors, see kani/frame__window_update.rs, frame__reset.rs).
+#[derive(PartialEq, Eq, Structural, Clone, Copy, Debug)]
+pub enum WFrame { WindowUpdate { stream_id: StreamId, incr: u32 }, Reset { stream_id: StreamId, reason: Reason } }
+
+pub mod wframe {
+    use super::*;
+    pub struct WindowUpdate;
+    impl WindowUpdate {
+        pub fn new(stream_id: StreamId, incr: u32) -> (r: WFrame)
+            ensures r == (WFrame::WindowUpdate { stream_id, incr }),
+        { WFrame::WindowUpdate { stream_id, incr } }
+    }
+    pub struct Reset;
+    impl Reset {
+        pub fn new(stream_id: StreamId, reason: Reason) -> (r: WFrame)
+            ensures r == (WFrame::Reset { stream_id, reason }),
+        { WFrame::Reset { stream_id, reason } }
+    }
+}
+
+/// Codec<T, Prioritized<B>>, write side, as the streams layer sees it: `has_send_capacity()` reports the encoder's
+/// state (`room`); `buffer()` REQUIRES it — Encoder::buffer starts with `assert!(self.has_capacity())`, so a caller
+/// that buffers without having checked would panic (C08) — and appends the frame to the wire order (`sent`);
+/// whether there is room afterwards is unknown.  ASSUMED model of codec/mod.rs + codec/framed_write.rs (their own
+/// contracts: kani/codec__framed_write.rs, kani/proto__*.rs).
+pub struct WCodec { pub sent: Ghost<Seq<WFrame>>, pub room: bool }
+impl WCodec {
+    #[verifier::external_body]
+    pub fn has_send_capacity(&mut self) -> (r: bool)
+        ensures r == old(self).room && *final(self) == *old(self),
+    { unimplemented!() }
+
+    #[verifier::external_body]
+    pub fn buffer(&mut self, item: WFrame) -> (r: Result<(), UserError>)
+        requires old(self).room,
+        ensures r is Ok && final(self).sent@ == old(self).sent@.push(item),
+    { unimplemented!() }
+}
+
+#[derive(PartialEq, Eq, Structural, Clone, Copy, Debug)]
+pub enum BufferStatus { Complete, CodecFull }
+
+pub struct IoError;
+
+/// I-owed (owed-work-is-queued, C03/C06): a stream that is receiving and whose released-but-unannounced credit reached
+/// the WINDOW_UPDATE threshold is ON the pending_window_updates queue — otherwise nobody will ever announce it and the
+/// peer stalls at a closed window.
+pub open spec fn owed(s: Stream) -> bool {
+    s.state.recv_streaming() && update_due(s.recv_flow) && !s.is_pending_window_update
+}
+
 #[derive(Clone, Copy, Debug)]
 pub struct StreamIdOverflow;
 
@@ -84,6 +150,14 @@ impl Counts {
     //@spec     requires old(self).num_remote_reset_streams < old(self).max_remote_reset_streams,
     //@spec     ensures *final(self) == (Counts { num_remote_reset_streams: (old(self).num_remote_reset_streams + 1) as usize, ..*old(self) }),
     //@end
+
+    /// Counts::transition_after consumes the Ptr: the stream goes back to the store (or is forgotten).  ASSUMED contract
+    /// (real body: Kani harness counts_transition_after); the precondition is the C03 obligation I-owed.
+    #[verifier::external_body]
+    pub fn transition_after(&mut self, stream: Stream, is_reset_counted: bool, store: &mut RStore)
+        requires !owed(stream),
+        ensures final(store).held() == old(store).held() - 1,
+    { unimplemented!() }
 
     /// Counts::release_data_frame (DATA-frame overhead budget): Kani harness counts_data_frame_budget
     #[verifier::external_body]
@@ -318,6 +392,89 @@ impl Recv {
     //@spec             r is Ok && final(stream).pending_recv@ == old(stream).pending_recv@.push(Event::Trailers(frame.fields))
     //@spec             && *final(stream) == (Stream { state: final(stream).state, pending_recv: final(stream).pending_recv, recv_task: None, ..*old(stream) })
     //@spec             && final(stream).state.inner == old(stream).state.after_recv_end_stream()->Some_0,
+    //@end
+
+    // ---- announcing credit (C03: every credit the application released is announced exactly once, by a WINDOW_UPDATE that
+    // raises the window to the available value; nothing is announced that was not released; an update that cannot be
+    // buffered now stays owed; C08: `buffer` is only called after `has_send_capacity`)
+    //@extract src/proto/streams/recv.rs Recv::send_pending_refusal
+    //@subst_re send_pending_refusal<T, B>\(=>send_pending_refusal(
+    //@subst_re dst: &mut Codec<T, Prioritized<B>>,\s*\) -> io::Result<BufferStatus>\s*where\s*T: AsyncWrite \+ Unpin,\s*B: Buf,=>dst: &mut WCodec) -> Result<BufferStatus, IoError>
+    //@subst frame::Reset::new(=>wframe::Reset::new(
+    //@subst_re dst\.buffer\(frame\.into\(\)\)\s*\.expect\("invalid RST_STREAM frame"\);=>let _b = dst.buffer(frame); assert(_b.is_ok());
+    //@ret r
+    //@spec     ensures
+    //@spec         *final(self) == (Recv { refused: final(self).refused, ..*old(self) }),
+    //@spec         // C05/C09: a refused stream is answered by exactly one RST_STREAM(REFUSED_STREAM), which stays owed while the codec is full
+    //@spec         old(self).refused is None ==> r == Ok::<BufferStatus, IoError>(BufferStatus::Complete) && final(dst).sent@ == old(dst).sent@ && final(self).refused is None,
+    //@spec         (old(self).refused is Some && !old(dst).room) ==> r == Ok::<BufferStatus, IoError>(BufferStatus::CodecFull) && final(dst).sent@ == old(dst).sent@ && final(self).refused == old(self).refused,
+    //@spec         (old(self).refused is Some && old(dst).room) ==> r == Ok::<BufferStatus, IoError>(BufferStatus::Complete) && final(self).refused is None
+    //@spec             && final(dst).sent@ == old(dst).sent@.push(WFrame::Reset { stream_id: old(self).refused->Some_0, reason: Reason::REFUSED_STREAM }),
+    //@end
+
+    //@extract src/proto/streams/recv.rs Recv::send_connection_window_update
+    //@subst_re send_connection_window_update<T, B>\(=>send_connection_window_update(
+    //@subst_re dst: &mut Codec<T, Prioritized<B>>,\s*\) -> io::Result<BufferStatus>\s*where\s*T: AsyncWrite \+ Unpin,\s*B: Buf,=>dst: &mut WCodec) -> Result<BufferStatus, IoError>
+    //@subst frame::WindowUpdate::new(=>wframe::WindowUpdate::new(
+    //@subst_re dst\.buffer\(frame\.into\(\)\)\s*\.expect\("invalid WINDOW_UPDATE frame"\);=>let _b = dst.buffer(frame); assert(_b.is_ok());
+    //@subst_re self\.flow\s*\.inc_window\(incr\)\s*\.expect\("unexpected flow control state"\);=>let _i = self.flow.inc_window(incr); assert(_i.is_ok());
+    //@ret r
+    //@spec     requires wf_conn(old(self).flow, old(self).in_flight_data as int),
+    //@spec     ensures
+    //@spec         *final(self) == (Recv { flow: final(self).flow, ..*old(self) }),
+    //@spec         final(self).flow.a() == old(self).flow.a(),
+    //@spec         // nothing due: nothing sent
+    //@spec         !update_due(old(self).flow) ==> r == Ok::<BufferStatus, IoError>(BufferStatus::Complete) && final(dst).sent@ == old(dst).sent@ && final(self).flow == old(self).flow,
+    //@spec         // due but the codec is full: it stays owed (flow untouched, so the next call tries again)
+    //@spec         (update_due(old(self).flow) && !old(dst).room) ==> r == Ok::<BufferStatus, IoError>(BufferStatus::CodecFull) && final(dst).sent@ == old(dst).sent@ && final(self).flow == old(self).flow,
+    //@spec         // due and room: exactly one WINDOW_UPDATE on stream 0 for exactly the unannounced credit; window == available afterwards
+    //@spec         (update_due(old(self).flow) && old(dst).room) ==> r == Ok::<BufferStatus, IoError>(BufferStatus::Complete)
+    //@spec             && final(dst).sent@ == old(dst).sent@.push(WFrame::WindowUpdate { stream_id: StreamId(0), incr: (old(self).flow.a() - old(self).flow.w()) as u32 })
+    //@spec             && final(self).flow.w() == old(self).flow.a(),
+    //@end
+
+    //@extract src/proto/streams/recv.rs Recv::send_stream_window_updates
+    //@attr #[verifier::exec_allows_no_decreases_clause]
+    //@subst_re send_stream_window_updates<T, B>\(=>send_stream_window_updates(
+    //@subst store: &mut Store=>store: &mut RStore
+    //@subst_re dst: &mut Codec<T, Prioritized<B>>,\s*\) -> io::Result<BufferStatus>\s*where\s*T: AsyncWrite \+ Unpin,\s*B: Buf,=>dst: &mut WCodec) -> Result<BufferStatus, IoError>
+    //@subst frame::WindowUpdate::new(=>wframe::WindowUpdate::new(
+    //@subst_re counts\.transition\(stream, \|_, stream\| \{=>{ let mut stream = stream; let ghost s0 = stream; let is_pending_reset = stream.is_pending_reset_expiration();
+    //@subst_re return;\s*\}=>} else {
+    //@subst_re dst\.buffer\(frame\.into\(\)\)\s*\.expect\("invalid WINDOW_UPDATE frame"\);=>let _b = dst.buffer(frame); assert(_b.is_ok());
+    //@subst_re stream\s*\.recv_flow\s*\.inc_window\(incr\)\s*\.expect\("unexpected flow control state"\);=>let _i = stream.recv_flow.inc_window(incr); assert(_i.is_ok());
+    //@subst_re \}\)(\s*\}\s*\}\s*)$=>} proof { assert(stream.state == s0.state && stream.is_pending_window_update == s0.is_pending_window_update); } counts.transition_after(stream, is_pending_reset, store); }\1
+    //@ret r
+    //@spec     ensures
+    //@spec         r is Ok,
+    //@spec         *final(self) == (Recv { pending_window_updates: final(self).pending_window_updates, buffer: final(self).buffer, ..*old(self) }),
+    //@spec         // every stream taken off the queue went back through Counts::transition_after, whose precondition is that it is
+    //@spec         // no longer owed an update; none is abandoned half-way (a stream popped and then dropped because the codec is
+    //@spec         // full would have lost its queue flag while still owed)
+    //@spec         final(store).held() == old(store).held(),
+    //@spec         // Complete only when the queue is drained; CodecFull only when the codec really is full
+    //@spec         r == Ok::<BufferStatus, IoError>(BufferStatus::Complete) ==> final(self).pending_window_updates.ghost_len == 0,
+    //@spec         r == Ok::<BufferStatus, IoError>(BufferStatus::CodecFull) ==> !final(dst).room,
+    //@spec         // only WINDOW_UPDATEs are added, in order, behind what was buffered before
+    //@spec         final(dst).sent@.len() >= old(dst).sent@.len() && final(dst).sent@.subrange(0, old(dst).sent@.len() as int) =~= old(dst).sent@,
+    //@loop 0     invariant
+    //@loop 0         *self == (Recv { pending_window_updates: self.pending_window_updates, buffer: self.buffer, ..*old(self) }),
+    //@loop 0         store.held() == old(store).held(),
+    //@loop 0         dst.sent@.len() >= old(dst).sent@.len() && dst.sent@.subrange(0, old(dst).sent@.len() as int) =~= old(dst).sent@,
+    //@end
+
+    //@extract src/proto/streams/recv.rs Recv::buffer_pending
+    //@subst_re buffer_pending<T, B>\(=>buffer_pending(
+    //@subst store: &mut Store=>store: &mut RStore
+    //@subst_re dst: &mut Codec<T, Prioritized<B>>,\s*\) -> io::Result<BufferStatus>\s*where\s*T: AsyncWrite \+ Unpin,\s*B: Buf,=>dst: &mut WCodec) -> Result<BufferStatus, IoError>
+    //@ret r
+    //@spec     requires wf_conn(old(self).flow, old(self).in_flight_data as int),
+    //@spec     ensures
+    //@spec         r is Ok,
+    //@spec         final(store).held() == old(store).held(),
+    //@spec         // Complete means: no connection-level update is due any more and the stream queue is drained
+    //@spec         r == Ok::<BufferStatus, IoError>(BufferStatus::Complete) ==> !update_due(final(self).flow) && final(self).pending_window_updates.ghost_len == 0,
+    //@spec         final(self).flow.a() == old(self).flow.a(),
     //@end
 
     // ---- teardown from outside (C07: when a stream or the connection ends, EVERY task waiting on the stream is woken —
